@@ -665,7 +665,7 @@ def fam_hier(R, idx):
         # a bitstruct CONSTANT with a two-dimensional packed-array field: connected to a wire and read by index,
         # and as an attribute of the component read in an update block
         # (seeded change C03-D: outer dimensions of the array of a struct literal emitted in list order)
-        d0, d1 = R.choice([(2, 3), (3, 2), (2, 2)])
+        d0, d1 = R.choice([(2, 4), (4, 2), (2, 2)])      # powers of two: every index value is in range
         ew = R.choice([4, 8])
         ctx.globals_.append("@bitstruct\nclass Coef:\n  gain: Bits4\n  tap: [ [ Bits%d ] * %d ] * %d\n" % (ew, d1, d0))
         vals = [[lit(R, ew) for _ in range(d1)] for _ in range(d0)]
@@ -765,12 +765,14 @@ def fam_misc(R, idx):
     if kind == 6:
         # sign / zero extension of an indexed part-select (variable base, constant width): the sign bit is
         # bit base + width - 1 of the sliced signal
-        W = R.choice([16, 32])          # the index must have clog2(W) bits; cycles with base + width > W raise in PyMTL
+        W = R.choice([16, 32])          # the index must have clog2(W) bits; it is masked so that base + width <= W
         k = R.choice([2, 4, 5])
+        m = W // 2 - 1
         decl = ["s.a = InPort( Bits%d )" % W, "s.i = InPort( Bits%d )" % clog2(W), "s.o = OutPort( Bits%d )" % (k + 4), "s.o2 = OutPort( Bits%d )" % (k + 4),
-                "s.o3 = OutPort( Bits%d )" % k]
-        blocks = [_block("up", ["s.o @= sext( s.a[ s.i : s.i + %d ], %d )" % (k, k + 4), "s.o2 @= zext( s.a[ s.i : s.i + %d ], %d )" % (k, k + 4),
-                                "s.o3 @= s.a[ s.i : s.i + %d ]" % k])]
+                "s.o3 = OutPort( Bits%d )" % k, "s.b = Wire( Bits%d )" % clog2(W)]
+        blocks = [_block("up_b", ["s.b @= s.i & %d" % m]),
+                  _block("up", ["s.o @= sext( s.a[ s.b : s.b + %d ], %d )" % (k, k + 4), "s.o2 @= zext( s.a[ s.b : s.b + %d ], %d )" % (k, k + 4),
+                                "s.o3 @= s.a[ s.b : s.b + %d ]" % k])]
         return "misc_k6_w%d_k%d" % (W, k), _emit(ctx, blocks, decl)
     if kind == 0:
         decl = ["s.sel = InPort( Bits2 )", "s.o = OutPort( Bits%d )" % w, "s.o2 = OutPort( Bits%d )" % w,
